@@ -104,6 +104,8 @@ def random_method(rng, name, allow_async=True, allow_generic=True, dyn_safe=Fals
         m.params.append(Param(TYPES[tkey], form, [nm] if form == "plain" else []))
         last = tkey
     m.attrs = rng.sample(METHOD_ATTRS, rng.randint(0, 2)) if rng.random() < 0.4 else []
+    if rng.random() < 0.1:
+        m.attrs = ["/// A.", "///", "/// B.", "///", "#[allow(unused)]", "#[allow(unused)]"] + m.attrs
     m.typed_recv = rng.random() < 0.12
     rets = ["owned", "owned", "unit", "borrow_self", "borrow_arg"]
     if allow_generic and not dyn_safe:
@@ -187,6 +189,10 @@ def random_trait(rng, name="Tr", dyn_safe=False, allow_async=True, with_async_tr
     t = TraitSpec(name)
     t.vis = rng.choice(["", "pub", "pub(crate)"])
     t.attrs = rng.sample(TRAIT_ATTRS, rng.randint(0, 2)) if rng.random() < 0.5 else []
+    if rng.random() < 0.2:
+        # token-identical attributes: every `///` line is a `#[doc = ".."]` of its own (blank lines and code fences repeat)
+        t.attrs = rng.choice([["/// Summary.", "///", "/// ```text", "/// example", "/// ```", "///", "/// More."],
+                              ["#[allow(dead_code)]", "#[allow(dead_code)]"], ["/// same", "/// same", "#[doc(hidden)]", "/// same"]]) + t.attrs
     t.generic = allow_generic_trait and rng.random() < 0.25
     if allow_generic_trait and rng.random() < 0.2:
         t.const_pos = rng.choice(["before", "after"])
